@@ -44,6 +44,40 @@ func checkC07(c *Ctx, r *Report) {
 
 	// producers of the model lists
 	const gmod = "(*core/pipeline.GleecePipeline).getModels"
+	// the type-name table of the spec: names that are mapped to an inline primitive instead of a
+	// reference to a component. Every label must be a predeclared Go type (or one of the reviewed
+	// library spellings): a label that a user-declared type can also be called ("Duration",
+	// "ID", ...) turns every such type into an inline primitive and drops its component reference.
+	if fi := need(c, r, "C07.c", "generator/swagen/swagtool.ToOpenApiType"); fi != nil {
+		reviewed := map[string]bool{"[]byte": true, "bytes": true, "Time": true, "time.Time": true}
+		isParam := func(e ast.Expr) bool {
+			id, ok := ast.Unparen(e).(*ast.Ident)
+			if !ok {
+				return false
+			}
+			_, isVar := fi.Pkg.TypesInfo.ObjectOf(id).(*types.Var)
+			return isVar && fi.Pkg.TypesInfo.TypeOf(id) != nil && fi.Pkg.TypesInfo.TypeOf(id).String() == "string"
+		}
+		labels, ps := w.dispatchLabels(fi, isParam)
+		viol := ""
+		var sites []string
+		for _, p := range ps {
+			sites = append(sites, w.pos(p))
+		}
+		for _, l := range labels {
+			if reviewed[l] {
+				continue
+			}
+			if tn, ok := types.Universe.Lookup(l).(*types.TypeName); ok && tn != nil {
+				continue
+			}
+			viol = fmt.Sprintf("ToOpenApiType maps the type name %q to a primitive: that is not a predeclared Go type, so a struct, enum or alias a project happens to call %q is emitted inline as that primitive instead of as a reference to its component", l, l)
+		}
+		if len(labels) < 10 {
+			viol = fmt.Sprintf("only %d type-name labels recognised in ToOpenApiType (floor 10)", len(labels))
+		}
+		r.add("C07.c", "typed-enum", fi.Key+":labels-are-predeclared-types", "the names mapped to inline primitives are the predeclared Go types plus the reviewed time/bytes spellings", []string{fi.Key}, sites, viol)
+	}
 	// a field whose metadata cannot be built fails the struct: it is never silently left out of the component
 	ruleErrPropagates(c, r, "C07.b", "(*core/visitors.StructVisitor).VisitStructType", "(*core/visitors.StructVisitor).getFieldMeta", -1, "a failing getFieldMeta fails VisitStructType (no property silently missing from the component)")
 	ruleEach(c, r, "C07.b", gmod,
